@@ -166,7 +166,15 @@ def selftest(ctx, trace, kd):
     ev = json.loads(lines[ic]); ev["obs"]["active"] += 1
     jobs["pool_books_corrupted_flagged"] = (lines[s:e], lines[s:ic] + [json.dumps(ev, separators=(",", ":"))] + lines[ic + 1:e], ic - s + 1)
     # (d) cdn: the order of two contacted servers swapped
-    idc = next((i for i, l in enumerate(lines) if '"contacted":["' in l and len(set(json.loads(l)["obs"]["contacted"])) >= 2), None)
+    def two_ranks(i):       # two servers of DIFFERENT priority were contacted (equal priorities may be tried in any order)
+        if '"contacted":["' not in lines[i]:
+            return False
+        c = json.loads(lines[i])["obs"]["contacted"]
+        if len(c) < 2:
+            return False
+        pr = {x["h"]: x["prio"] for x in json.loads(lines[window(i)[0]])["cfg"]["servers"]}
+        return pr[c[0]] != pr[c[1]]
+    idc = next((i for i in range(len(lines)) if two_ranks(i)), None)
     if idc is not None:
         s, e = window(idc)
         ev = json.loads(lines[idc]); c = ev["obs"]["contacted"]; c[0], c[1] = c[1], c[0]
